@@ -16,7 +16,8 @@ EXPLANATION = (
     "inserts-or-ignores and upgrades to 'finished'. The completion callback runs only as a done-callback of the "
     "file-write task (file before row). Deletion removes the file, the in-memory entry and (when asked) the row."
 )
-TECHNIQUE = "static analysis: abstract interpretation of set expressions over Venn regions, must-pass-through ordering, who-may-write, SQL site lexing"
+EXACTNESS = "Second pass (DESIGN.md §10, exactness / completeness halves) — `is_blob_verified`, `blob_completed`, `delete_blob`, re-examination and scan effects under exactly their tests; defaults of `delete_blobs`; file-backed object for every blob whose file exists."
+TECHNIQUE = "static analysis: abstract interpretation of set expressions over Venn regions, must-pass-through ordering, who-may-write, SQL site lexing; exact fact-set comparison of the tests dominating each effect and refusal (effect / refusal tables), fall-through path queries"
 NOT_DECIDED = "the state equality 'after any history followed by a restart' over sqlite + directory contents (the decided clauses are exactly the restart step); sqlite/WAL crash semantics"
 ASSUMPTIONS = ["sqlite executes the literal SQL as written; os.scandir lists the blob directory"]
 
